@@ -28,6 +28,8 @@ import (
 	"os"
 	"os/exec"
 	"path/filepath"
+	"runtime"
+	"runtime/debug"
 	"sort"
 	"strings"
 	"sync"
@@ -172,6 +174,10 @@ func runHist(c caseT) (r resT) {
 	if c.Reps < 1 {
 		c.Reps = 1
 	}
+	// State kept outside the instance may live in per-P, GC-cleared places (sync.Pool): the history and the
+	// calls that follow it run on one P without a collection in between.
+	defer runtime.GOMAXPROCS(runtime.GOMAXPROCS(1))
+	defer debug.SetGCPercent(debug.SetGCPercent(-1))
 	in, err := build(c.CKind, c.Origin)
 	if err != nil {
 		r.HarnessErr = err.Error()
@@ -249,6 +255,22 @@ func runHist(c caseT) (r resT) {
 				r.add(false, sigBase(call, "history_dependent_result"),
 					detail(map[string]any{"after_history": uk, "fresh_instance": fk}))
 			}
+			// (3b) the call IMMEDIATELY after its predecessor (nothing of the SDK runs in between): whatever
+			// the predecessor left behind - in the instance or anywhere else in the process - must not show
+			if ci > 0 {
+				prevCall := c.Calls[ci-1]
+				for k := 0; k < 3; k++ {
+					in.call(prevCall.Op, prevCall.Tok, prevCall.m())
+					o2 := in.call(call.Op, call.Tok, call.m())
+					r.Evals += 2
+					if o2.key() != fk {
+						r.add(false, sigBase(call, "history_dependent_result"), detail(map[string]any{
+							"immediately_after": prevCall.Op + ":" + prevCall.Tok, "after_history": clip(o2.key()),
+							"fresh_instance": clip(fk), "err": o2.Err}))
+						break
+					}
+				}
+			}
 			// the model's expectation (detail the statement does not fix: drift)
 			if o := used[uk]; o.Panic == nil && len(call.Exp) > 0 && !inExp(o, call.Exp) {
 				r.add(true, sigBase(call, "model"), detail(map[string]any{"expected": call.Exp,
@@ -305,8 +327,10 @@ var opTable = map[string][][2]string{
 	"objmap":    {{"unser", "rand"}, {"unser", "rand"}, {"unser", "bad"}, {"valid", "rand"}, {"ser", "rand"}},
 	"objstruct": {{"unser", "rand"}, {"unser", "rand"}, {"unser", "rand"}, {"unser", "bad"}, {"ser", "full"}, {"valid", "full"}},
 	"mapcoll":   {{"unser", "collide"}, {"unser", "single"}, {"unser", "bad"}},
-	"oneof":     {{"unser", "member_a"}, {"unser", "nodisc"}, {"ser", "member_a"}, {"valid", "member_a"}},
-	"enum":      {{"compat", "same"}, {"compat", "extra"}, {"unser", "member"}, {"unser", "bad"}},
+	"oneof": {{"unser", "member_a"}, {"unser", "nodisc"}, {"ser", "member_a"}, {"valid", "member_a"},
+		{"valid", "member_a_bad"}, {"ser", "member_a_bad"}, {"unser", "member_a_bad"}},
+	"objdep": {{"valid", "dep"}, {"valid", "dep"}, {"ser", "dep"}, {"unser", "dep"}},
+	"enum":   {{"compat", "same"}, {"compat", "extra"}, {"unser", "member"}, {"unser", "bad"}},
 }
 
 func runRandom(c caseT) (r resT) {
@@ -374,6 +398,19 @@ func runRandom(c caseT) (r resT) {
 				m = flat{int64(rng.Intn(10)), -1, int64(rng.Intn(10)), int64(rng.Intn(10))}
 			case tok == "member_a":
 				m = flat{int64(rng.Intn(10)), 1, -1, -1}
+			case tok == "member_a_bad":
+				m = flat{100, 1, -1, -1}
+			case tok == "dep":
+				pick := func() int64 {
+					if rng.Intn(2) == 0 {
+						return -1
+					}
+					return int64(rng.Intn(10))
+				}
+				m = flat{pick(), pick(), pick(), pick()}
+				if rng.Intn(4) == 0 {
+					m.Sa = 100 // c out of range
+				}
 			}
 			o := in.call(op, tok, m)
 			r.Evals++
